@@ -138,6 +138,24 @@ def has_deque(o):
     return False
 
 
+def inst_classes(o, acc=None):
+    """indices of the classes of all instances inside a value (they are met by run-time class at Any positions)"""
+    acc = set() if acc is None else acc
+    t = o[0]
+    if t == "I":
+        acc.add(o[1])
+        for _, v in o[2]:
+            inst_classes(v, acc)
+    elif t in ("l", "t", "q", "S", "F"):
+        for e in o[1]:
+            inst_classes(e, acc)
+    elif t == "d":
+        for k, v in o[1]:
+            inst_classes(k, acc)
+            inst_classes(v, acc)
+    return acc
+
+
 CFGS = [c for c in ALL_CFGS if c["detailed"]]  # detailed_validation is irrelevant to unstructuring
 
 
@@ -167,7 +185,10 @@ def run(chk: framework.Check):
                     chk.unmodelled += 1
                     continue
                 for cfg in CFGS:
-                    if not gen.supported(cfg, w, ty):
+                    if not gen.supported(cfg, w, ty) or not all(
+                            gen.supported(cfg, w, ("cls", ci)) for ci in inst_classes(x)):
+                        # the declared type, or the class of an instance met at an Any-typed position, is outside
+                        # the documented support of this converter class
                         chk.note("unsupported-by-converter-class")
                         continue
                     case = {"world": w, "cfg": cfg, "ty": ty, "x": x}
